@@ -19,6 +19,8 @@ pub mod c14;
 pub mod c15;
 pub mod c16;
 pub mod c17;
+pub mod c18;
+pub mod c19;
 
 pub struct PropDef {
     pub id: &'static str,
@@ -29,7 +31,7 @@ pub struct PropDef {
     pub subs: Vec<Box<dyn SubCheck>>,
 }
 
-pub const ALL: [&str; 17] = ["C01", "C02", "C03", "C04", "C05", "C06", "C07", "C08", "C09", "C10", "C11", "C12", "C13", "C14", "C15", "C16", "C17"];
+pub const ALL: [&str; 19] = ["C01", "C02", "C03", "C04", "C05", "C06", "C07", "C08", "C09", "C10", "C11", "C12", "C13", "C14", "C15", "C16", "C17", "C18", "C19"];
 
 pub fn get(id: &str, ctx: &Ctx) -> Option<PropDef> {
     match id {
@@ -50,6 +52,8 @@ pub fn get(id: &str, ctx: &Ctx) -> Option<PropDef> {
         "C15" => Some(c15::def(ctx)),
         "C16" => Some(c16::def(ctx)),
         "C17" => Some(c17::def(ctx)),
+        "C18" => Some(c18::def(ctx)),
+        "C19" => Some(c19::def(ctx)),
         _ => None,
     }
 }
